@@ -8,7 +8,8 @@ import (
 
 func TestReplay(t *testing.T) {
 	verif.ReplayMain(map[string]func(){
-		"HarnessReusedChannelID": HarnessReusedChannelID,
-		"HarnessTermination":     HarnessTermination,
+		"HarnessForeignChannelIDs": HarnessForeignChannelIDs,
+		"HarnessReusedChannelID":   HarnessReusedChannelID,
+		"HarnessTermination":       HarnessTermination,
 	})
 }
